@@ -84,6 +84,7 @@ def explore(tier="quick", prop="C06"):
     reps = 8 if tier == "quick" else 160
     eps = c.EPSILON
     via_model = {}
+    n_generic = {}
 
     def fail(name, what, x, y, extra=None):
         nonlocal failure
@@ -128,6 +129,15 @@ def explore(tier="quick", prop="C06"):
                 y = gen_vec(rng, n, dom, kind)
             if rep % 5 == 4 and kind != "near":
                 y = list(x)
+            big = False
+            if kind == "generic":
+                n_generic[name] = n_generic.get(name, 0) + 1
+            if prop == "C06" and kind == "generic" and n_generic[name] % 2 == 0:
+                # finite doubles of very large magnitude (the closed forms are scale-free or polynomial of low degree:
+                # intermediate products may overflow although the value does not)
+                x = [v * 1e80 for v in x]
+                y = [v * 1e80 for v in y]
+                big = True
             xa, ya = np.asarray(x, dtype=float), np.asarray(y, dtype=float)
             xb, yb = xa.tobytes(), ya.tobytes()
             stats["evaluations"] += 1
@@ -138,8 +148,12 @@ def explore(tier="quick", prop="C06"):
             try:
                 got = float(fn(xa, ya))
             except Exception as ex:
+                if big:
+                    continue    # absorption / overflow at magnitude 1e80: outside the float range the closed forms hold on
                 fail(name, "raised %s: %s" % (type(ex).__name__, ex), x, y)
                 break
+            if big and (math.isnan(got) or math.isinf(got)):
+                continue        # (same: only a FINITE value that differs from the closed form is reported at this scale)
             if prop == "C07":
                 if xa.tobytes() != xb or ya.tobytes() != yb:
                     fail(name, "caller array modified by the call", x, y, {"after_x": xa.tolist(), "after_y": ya.tolist()})
@@ -198,6 +212,8 @@ def explore(tier="quick", prop="C06"):
                 if not okc:
                     fail(name, "value %r differs from the closed form %r" % (got, want), x, y)
                     break
+                if big:
+                    continue        # (the buffer / model protocols below evaluate other pairs: unit scale only)
                 buf = np.asarray(y, dtype=float).copy()      # same array object, new contents: still the closed form
                 fn(buf, ya)
                 buf[:] = xa
@@ -293,6 +309,23 @@ def explore(tier="quick", prop="C06"):
                 if repr(outs[0]) != repr(outs[1]):
                     fail(metric, "two fresh %s models on equal data differ" % kind, X.ravel(), Q.ravel())
                     break
+        # pruning (fit + predict rounds on shrinking training sets) leaves the caller's four arrays unchanged
+        for trial in range(6):
+            if failure:
+                break
+            Xp = np.asarray([[round(rng.uniform(0, 4), 3) for _ in range(2)] for _ in range(10)])
+            Yp = np.asarray([t % 2 for t in range(10)])
+            Vp = np.asarray([[round(rng.uniform(0, 4), 3) for _ in range(2)] for _ in range(4)])
+            YVp = np.asarray([0, 1, 0, 1])
+            before = (Xp.tobytes(), Yp.tobytes(), Vp.tobytes(), YVp.tobytes())
+            stats["evaluations"] += 1
+            stats["distinct_nontrivial"] += 1
+            try:
+                SupervisedOPF(distance="euclidean").prune(Xp, Yp, Vp, YVp, n_iterations=1 + trial % 3)
+            except Exception:
+                pass        # (a pruned set that degenerates to one class raises in predict: outside this property)
+            if before != (Xp.tobytes(), Yp.tobytes(), Vp.tobytes(), YVp.tobytes()):
+                fail("euclidean", "prune modified a caller array", Xp.ravel(), Vp.ravel())
     stats["rule"] = ("real registry functions (and the model's distance_fn) on generated vectors of length 1..6 in each "
                      "metric's domain (generic, probability, zero-containing lattice, identical) against the float "
                      "interpreter of specs/metrics.py (rel. tol. 1e-9) / the axiom table / byte comparison of caller "
